@@ -645,6 +645,13 @@ impl GetOptsOptions {
             .collect::<Result<HashMap<_, _>, _>>()?;
 
         options.check = matches.opt_present("check");
+        if options.check && options.inline_config.contains_key("emit_mode") {
+            // `--config` pairs are applied last: the pair would silently replace the diff
+            // mode that `--check` stands for (and `emit_mode=Files` would rewrite the files).
+            return Err(format_err!(
+                "Invalid to use `--config emit_mode=..` and `--check`"
+            ));
+        }
         if let Some(ref emit_str) = matches.opt_str("emit") {
             if options.check {
                 return Err(format_err!("Invalid to use `--emit` and `--check`"));
